@@ -653,7 +653,8 @@ pub fn gen_row(t: &mut Tape, specs: &[TSpec], state: &[Rows], ti: usize, next_ke
 
 pub fn gen_pred(t: &mut Tape, spec: &TSpec, rows: &Rows, depth: u32) -> APred {
     let tb = spec.atable(rows);
-    crate::c02::gen_pred(t, &tb, &[0], depth, false, false)
+    // literals of the other numeric type included (k = 2.0 on an INTEGER key)
+    crate::c02::gen_pred(t, &tb, &[0], depth, true, false)
 }
 
 pub fn gen_stmt(t: &mut Tape, specs: &[TSpec], state: &[Rows], c: &DmlCfg, next_key: &mut i64) -> Stmt {
